@@ -153,6 +153,33 @@ class EscapeAnalysis:
                 break
         return out
 
+    def _owner(self, fn: FuncInfo) -> FuncInfo:
+        from .collect import default_inline
+        if not hasattr(self, "_callers"):
+            cal: Dict[str, Set[str]] = {}
+            for f in self.p.all_functions():
+                for n in ast.walk(f.node):
+                    if isinstance(n, ast.Call):
+                        try:
+                            r = self.p.resolve_call(f, n)
+                        except Exception:
+                            r = None
+                        if isinstance(r, FuncInfo) and r is not f:
+                            cal.setdefault(r.fq, set()).add(f.fq)
+            self._callers = cal
+        cur = fn
+        for _ in range(4):
+            if not default_inline(cur) or cur.name.startswith("__"):
+                break
+            cs = self._callers.get(cur.fq, set())
+            if len(cs) != 1:
+                break
+            try:
+                cur = self.p.func(next(iter(cs)))
+            except Exception:
+                break
+        return cur
+
     def _escapes(self, fn: FuncInfo, self_cls, param_taint, depth) -> FrozenSet[Esc]:
         env = self.ta.function_env(fn, self_cls, param_taint)
         ltypes = self.local_types(fn)
@@ -161,6 +188,11 @@ class EscapeAnalysis:
 
         def add(node: ast.AST, exc: str, why: str, kind: str, text: Optional[str] = None) -> None:
             cons = construct(fn, node if text is None else None, text)
+            owner = self._owner(fn)
+            if owner is not fn and cons.startswith(fn.fq):
+                # a private helper with a single caller is part of that caller: the construct is named after it, so that
+                # extracting the statement into a helper (or inlining it back) does not make it a different construct
+                cons = owner.fq + cons[len(fn.fq):]
             if self._caught_locally(fn, node, exc):
                 if kind == "fact":
                     self.caught.add((exc, cons))
@@ -331,9 +363,12 @@ class EscapeAnalysis:
                 self.fact_points += 1
                 lenient = isinstance(errors, ast.Constant) and errors.value in ("replace", "ignore", "surrogateescape", "backslashreplace")
                 if codec is not None and not isinstance(codec, ast.Constant) and T(codec):
-                    add(call, "LookupError", f"bytes.decode(<client-chosen codec>): an unknown charset name raises LookupError (codec from {sorted(T(codec))})", "fact")
+                    # the construct names the call site by WHAT is decoded; how the client's charset name is obtained (inline
+                    # expression, local, helper) is not part of its identity
+                    ctext = f"{ast.unparse(f.value)}.decode(<client-chosen codec>)"
+                    add(call, "LookupError", f"bytes.decode(<client-chosen codec>): an unknown charset name raises LookupError (codec from {sorted(T(codec))})", "fact", ctext)
                     if not lenient:
-                        add(call, "UnicodeDecodeError", f"bytes.decode(<client-chosen codec>) of client bytes raises UnicodeDecodeError for most codecs (data from {sorted(recv_t)})", "fact")
+                        add(call, "UnicodeDecodeError", f"bytes.decode(<client-chosen codec>) of client bytes raises UnicodeDecodeError for most codecs (data from {sorted(recv_t)})", "fact", ctext)
                 elif not lenient and not (isinstance(codec, ast.Constant) and str(codec.value).lower() in TOTAL_CODECS):
                     cn = codec.value if isinstance(codec, ast.Constant) else "utf-8"
                     add(call, "UnicodeDecodeError", f"bytes.decode({cn!r}) of client bytes is not total (data from {sorted(recv_t)})", "fact")
